@@ -427,8 +427,89 @@ def substore_streams(tier):
         (core.Stream("substore-odd", "substore", gen_odd, predicate, None, keep_prefix=1), 2000 if q else 50000),
     ]
 
+# ---- the redis wrapper (persistence/subscription/redis): redis first, in-memory index second; with injected backend faults
+
+# ops in front of which a backend fault is injected. `sub` is NOT among them: (*sub).Subscribe pipelines its HSETs with
+# Send/Flush and never reads the replies, so an error REPLY goes unnoticed there (findings/c02-redis-subscribe-ignores-reply.md);
+# command failures are outside the quantifier of C02 / C09, so that is recorded as an observation and not demanded here.
+MUTATING = ("unsub", "unsuball")
+
+def gen_redis(rng):
+    """a history as for the memory store, with `fault` (the next redis command fails) in front of some mutating ops and
+    `reload` (a store re-initialised from redis must equal the live one) now and then"""
+    ops = gen_history(rng, rng.choice([0.0, 0.3]), nmax=40)
+    res = []
+    for op in ops:
+        if op.split(" ")[0] in MUTATING and rng.random() < 0.15:
+            res.append("fault")
+        res.append(op)
+        if rng.random() < 0.06:
+            res.append("reload")
+    res.append("reload")
+    return res
+
+def hint_redis(ops, impl_out):
+    """a mutating op that ran into the armed fault AND reported an error is marked `failed …` for the model (it must have
+    changed nothing). An op that answered `ok` although a fault was armed issued no redis command (nothing to remove, say):
+    the model then applies it like any other. The fault is disarmed after the op either way (the driver does the same)."""
+    armed, res = False, []
+    for i, op in enumerate(ops):
+        w = op.split(" ")[0]
+        if w == "fault":
+            armed = True
+        elif w in ("new", "reload"):
+            armed = False
+        elif w in MUTATING:
+            if armed and impl_out is not None and i < len(impl_out) and impl_out[i] == "err":
+                op = "failed " + op
+            armed = False
+        res.append(op)
+    return res
+
+def predicate_redis(ops, out):
+    """as `predicate`, plus: an op that reports an error (its redis command failed) leaves every later answer as if it had not
+    been issued; an op that reports success has taken effect; a store reloaded from redis equals the live one"""
+    if len(out) != len(ops) or (out and out[0].startswith("CRASH")):
+        return "implementation crashed or hung: " + (out[0] if out else "")
+    ref = Ref()
+    armed = failed_before = False
+    for i, (op, o) in enumerate(zip(ops, out)):
+        f = op.split(" ")
+        if o.startswith("panic") or o == "bad-op":
+            return f"`{op}` -> {o}"
+        if f[0] == "fault":
+            armed = True
+            continue
+        if f[0] == "reload":
+            armed = False
+            if o != "same":
+                return f"the store re-initialised from redis differs from the live one: {o[:300]}"
+            continue
+        if f[0] in MUTATING:
+            was_armed, armed = armed, False
+            if o == "err":
+                if not was_armed:
+                    return f"unexpected result `err` for `{op}`"
+                failed_before = True
+                continue             # the reference map is NOT updated: nothing may have changed
+        elif o == "err":
+            return f"unexpected result `err` for `{op}`"
+        want = ref.expect(f)
+        if want is not None and want != o:
+            return (f"[{classify(ops, i, o, want)}] `{op}` answered `{o}`; the stored subscriptions say `{want}`"
+                    + (" (after an operation that reported a backend error and must have changed nothing)" if failed_before else ""))
+    return None
+
+class RedisSubStream(core.Stream):
+    """implementation side = `drive_substore redis` (the wrapper over respfake); model side = the same oracle_substore"""
+    def impl(self, cases):
+        return core.run_parallel([core.drive_exe("substore"), "redis"], cases, timeout=self.timeout)
+
 def streams(tier):
     res = substore_streams(tier)
+    res.append((RedisSubStream("substore-redis", "substore", gen_redis, predicate_redis,
+                               lambda ops, out: "err" in out and "same" in out, keep_prefix=1, hint=hint_redis),
+                3000 if tier == "quick" else 80000))
     try:
         from . import c02_topicmatch as tm
         res.append((core.Stream("topicmatch", "topicmatch", tm.gen, tm.predicate, tm.nontrivial, keep_prefix=0),
@@ -472,4 +553,4 @@ ASSUME = ["sync.RWMutex makes each Store method atomic (one model step per call)
           "Go map iteration order is not modelled (all answers are compared as sorted multisets)",
           "Subscribe/Unsubscribe with several arguments = the same calls one at a time (the loops share no state)",
           "the model mirrors mem AFTER the proposed fixes substore-shared-index (F19, F20), substore-shared-dollar-topic, "
-          "substore-matchname-panic; the redis wrapper (persistence/subscription/redis) delegates to the same mem.TrieDB and is not driven"]
+          "substore-matchname-panic; the redis wrapper (persistence/subscription/redis) is driven over respfake by the stream substore-redis with injected command failures (error reply, command not executed)"]
